@@ -215,8 +215,10 @@ Definition l_utf16be : list N := [117; 116; 102; 45; 49; 54; 98; 101].      (* "
 Definition detect_charset (is_file : bool) (bytes : list N) : list N :=
   if is_file then
     match bytes with
-    | 0xFF :: 0xFE :: _ => l_utf16le
-    | 0xFE :: 0xFF :: _ => l_utf16be
+    | b0 :: b1 :: _ =>
+        if (b0 =? 0xFF) && (b1 =? 0xFE) then l_utf16le
+        else if (b0 =? 0xFE) && (b1 =? 0xFF) then l_utf16be
+        else l_utf8
     | _ => l_utf8
     end
   else l_utf8.
@@ -308,7 +310,7 @@ Record src := { s_text : list N; s_kind : kind }.
 
 Definition starts_with_bom (t : list N) : bool :=     (* text.starts_with(BOM_CHAR) on UTF-8 *)
   match t with
-  | 0xEF :: 0xBB :: 0xBF :: _ => true
+  | b0 :: b1 :: b2 :: _ => (b0 =? 0xEF) && (b1 =? 0xBB) && (b2 =? 0xBF)
   | _ => false
   end.
 
